@@ -109,6 +109,16 @@ CLAIMED = {
          'K4 lemmas named in evidence (accumulator bound, named sums, iteration-partitioned pure helpers); objects passed to the '
          'decode API were initialised by their init functions; 23 sites are assumptions with reasons (engine/rules/c02_tables.py).',
          'DESIGN.md 4/C02, 3.3 K4'),
+ 'C13': ('path-sensitive ownership (typestate) analysis over the clang CFG with relational callee summaries split by result class; field-coverage, free-then-reset, slot-overwrite and static-book rules over K3 effect summaries and CFG dominance',
+         'Every function of the three libraries that acquires memory is analysed on every path: allocator results, fresh objects '
+         'from callees, local aggregates made live by init functions or filled by callees, and memory left in local pointer cells '
+         'must be released, handed over or returned at every exit, success or failure. Every field that receives owned memory is '
+         'released by its record\'s release function; freed fields are reset or their object wiped; clear functions end by wiping '
+         'their object; owning slots are empty when filled; shared const codebooks are never freed; the close callback has one '
+         'guarded site. Aliasing through untyped back-pointers beyond the field tables is not decided.',
+         'Trusted: clang 14 front end; K3 effect summaries; libc allocator semantics; libogg init/clear pairs; the table of '
+         'release functions (engine/rules/c13.py) and init functions (engine/k6.py); one non-owning field is an assumption with '
+         'its reason.', 'DESIGN.md 4/C13, 3.3 K6'),
 }
 
 NA = {
